@@ -298,6 +298,52 @@ func registerSnapshot(e *Engine) {
 		h.closed = true
 		return iface{}
 	})
+	// ---- SDK snapshot manager and store: Create asks the registered
+	// Snapshotter for a snapshot of the height (format 1) and keeps the stream
+	// (here: the message queue); Load hands it back.  Chunk files, hashes,
+	// metadata and pruning are outside the model.
+	R(sdk+".NewStore", func(fr *frame, a []value) value { return tuple{handle("snapshot store"), iface{}} })
+	R(sdk+".NewManager", func(fr *frame, a []value) value {
+		fr.i.heap["snapshot.target"] = a[1]
+		return handle("snapshot manager")
+	})
+	snapPtr := func(fr *frame, idx int) value {
+		var s value = zero(deref(fr.fn.Signature.Results().At(idx).Type()))
+		return &s
+	}
+	R("(*"+sdk+".Manager).Create", func(fr *frame, a []value) value {
+		target, ok := fr.i.heap["snapshot.target"].(iface)
+		if !ok || target.t == nil {
+			panic(abortPath{"engine-error", "snapshot manager without a snapshotter"})
+		}
+		fn := fr.i.prog.LookupMethod(target.t, nil, "Snapshot")
+		if fn == nil {
+			panic(abortPath{"engine-error", "snapshotter has no Snapshot method"})
+		}
+		res := callValue(fr, fn, target.v, a[1], uint32(1)).(tuple)
+		if e, ok := res[1].(iface); ok && e.t != nil {
+			return tuple{(*value)(nil), res[1]}
+		}
+		fr.i.heap["snapshot.created"] = true
+		return tuple{snapPtr(fr, 0), iface{}}
+	})
+	R("(*"+sdk+".Manager).Prune", func(fr *frame, a []value) value { return tuple{uint64(0), iface{}} })
+	R("(*"+sdk+".Store).Get", func(fr *frame, a []value) value {
+		if done, _ := fr.i.heap["snapshot.created"].(bool); !done {
+			return tuple{(*value)(nil), iface{}}
+		}
+		return tuple{snapPtr(fr, 0), iface{}}
+	})
+	R("(*"+sdk+".Store).Load", func(fr *frame, a []value) value {
+		if done, _ := fr.i.heap["snapshot.created"].(bool); !done {
+			return tuple{(*value)(nil), (chan value)(nil), iface{}}
+		}
+		return tuple{snapPtr(fr, 0), (chan value)(nil), iface{}}
+	})
+	R("os.MkdirTemp", func(fr *frame, a []value) value { return tuple{"/nonexistent/verif-snapshots", iface{}} })
+	R("os.RemoveAll", func(fr *frame, a []value) value { return iface{} })
+	R("time.Sleep", func(fr *frame, a []value) value { return nil })
+
 	// ---- SDK error decoration (captures a stack trace through the runtime):
 	// a wrapped error is some non-nil error; wrapping nil gives nil
 	wrap := func(fr *frame, a []value) value {
